@@ -64,28 +64,33 @@ theorem attrs_nil (h : Ctx cfg c m) : m.attrs = [] ↔ c.attrs = [] := by
     simp only [List.length_append, List.length_nil] at hl
     omega
 
-/-- the first attribute of type 14 is an MP_REACH_NLRI of the content -/
+/-- the first attribute of type 14 is an MP_REACH_NLRI of the content: of one of
+the 13 families or of an unsupported (AFI, SAFI) -/
 theorem find_reach (h : Ctx cfg c m) {a : AttrC} (hf : c.find 14 = some a) :
-    ∃ fl f nh nlri, a = .reach fl f nh nlri := by
+    (∃ fl f nh rsv nlri, a = .reach fl f nh rsv nlri) ∨ (∃ fl k nh rsv body, a = .reachU fl k nh rsv body) := by
   obtain ⟨hm, hc⟩ := find_mem hf
   have hkind := h.kind a hm
   cases a with
   | typed fl t => cases t <;> simp [AttrC.code, TypedAttr.code] at hc
   | path fl as4 ss => cases as4 <;> simp [AttrC.code] at hc
   | raw fl tc v => exact absurd hc hkind.2.1
-  | reach fl f nh nlri => exact ⟨fl, f, nh, nlri, rfl⟩
+  | reach fl f nh rsv nlri => exact .inl ⟨fl, f, nh, rsv, nlri, rfl⟩
   | unreach fl f nlri => simp [AttrC.code] at hc
+  | reachU fl k nh rsv body => exact .inr ⟨fl, k, nh, rsv, body, rfl⟩
+  | unreachU fl k body => simp [AttrC.code] at hc
 
 theorem find_unreach (h : Ctx cfg c m) {a : AttrC} (hf : c.find 15 = some a) :
-    ∃ fl f nlri, a = .unreach fl f nlri := by
+    (∃ fl f nlri, a = .unreach fl f nlri) ∨ (∃ fl k body, a = .unreachU fl k body) := by
   obtain ⟨hm, hc⟩ := find_mem hf
   have hkind := h.kind a hm
   cases a with
   | typed fl t => cases t <;> simp [AttrC.code, TypedAttr.code] at hc
   | path fl as4 ss => cases as4 <;> simp [AttrC.code] at hc
   | raw fl tc v => exact absurd hc hkind.2.2
-  | reach fl f nh nlri => simp [AttrC.code] at hc
-  | unreach fl f nlri => exact ⟨fl, f, nlri, rfl⟩
+  | reach fl f nh rsv nlri => simp [AttrC.code] at hc
+  | unreach fl f nlri => exact .inl ⟨fl, f, nlri, rfl⟩
+  | reachU fl k nh rsv body => simp [AttrC.code] at hc
+  | unreachU fl k body => exact .inr ⟨fl, k, body, rfl⟩
 
 /-- the AFI/SAFI that decides a section's ADD-PATH flag (taken from the last
 attribute of the type) is the one of the first attribute of that type -/
@@ -117,10 +122,10 @@ theorem mpKey (h : Ctx cfg c m) (code : Nat) (hcode : code = 14 ∨ code = 15) :
     rfl
 
 /-- value octets and NLRI items of an MP_REACH_NLRI of the content -/
-theorem reach_value (_h : Ctx cfg c m) {fl : UInt8} {f : Fam} {nh : Bytes} {nlri : List (Nat × f.Val)}
-    (hk : (AttrC.reach fl f nh nlri).kindOk cfg) :
+theorem reach_value (_h : Ctx cfg c m) {fl : UInt8} {f : Fam} {nh : Bytes} {rsv : UInt8} {nlri : List (Nat × f.Val)}
+    (hk : (AttrC.reach fl f nh rsv nlri).kindOk cfg) :
     ∃ b, encNlris f (cfg.rx (famCode f)) nlri = .ok b ∧
-      (AttrC.reach fl f nh nlri).valueD cfg = reachValue f nh b ∧
+      (AttrC.reach fl f nh rsv nlri).valueD cfg = mpReachValue (famCode f) nh rsv b ∧
       famItems f (cfg.rx (famCode f)) b = (reportNlris f (cfg.rx (famCode f)) nlri, true) := by
   obtain ⟨b, hb, hi, _⟩ := nlris_reported f (cfg.rx (famCode f)) nlri hk.1
   exact ⟨b, hb, by simp [AttrC.valueD, AttrC.value, hb], hi⟩
@@ -133,6 +138,24 @@ theorem unreach_value (_h : Ctx cfg c m) {fl : UInt8} {f : Fam} {nlri : List (Na
   obtain ⟨b, hb, hi, _⟩ := nlris_reported f (cfg.rx (famCode f)) nlri hk
   exact ⟨b, hb, by simp [AttrC.valueD, AttrC.value, hb], hi⟩
 
+/-- the AFI/SAFI split of the value of an MP_REACH_NLRI of one of the 13 families,
+whatever its reserved octet -/
+theorem afiSafi_reachR (f : Fam) (nh : Bytes) (rsv : UInt8) (b : Bytes) :
+    afiSafi (mpReachValue (famCode f) nh rsv b) = some (famCode f, UInt8.ofNat nh.length :: (nh ++ (rsv :: b))) :=
+  afiSafi_mpReach (famCode f) (famCode_small f).1 (famCode_small f).2 nh rsv b
+
+theorem reachU_value (fl : UInt8) (k : Nat × Nat) (nh : Bytes) (rsv : UInt8) (body : Bytes) :
+    (AttrC.reachU fl k nh rsv body).valueD cfg = mpReachValue k nh rsv body := by
+  simp [AttrC.valueD, AttrC.value]
+
+theorem unreachU_value (fl : UInt8) (k : Nat × Nat) (body : Bytes) :
+    (AttrC.unreachU fl k body).valueD cfg = mpUnreachValue k body := by
+  simp [AttrC.valueD, AttrC.value]
+
+theorem nlriTy_unsupported {k : Nat × Nat} (hk : famOf k = none) (ap : Bool) :
+    nlriTy k ap = .unsupported k.1 k.2 := by
+  simp [nlriTy, hk]
+
 /-- what the accessors find as the first attribute of type `code` -/
 theorem mpAttr_none (h : Ctx cfg c m) (code : Nat) (hf : c.find code = none) : m.mpAttr code = .ok none := by
   simp only [Msg.mpAttr, h.attrs, findUnchecked_enc code (c.raws cfg) h.rawsWf _ (encRaws_length_ge _), h.first, hf,
@@ -142,32 +165,40 @@ theorem mpAttr_some (h : Ctx cfg c m) (code : Nat) (a : AttrC) (hf : c.find code
     (x : (Nat × Nat) × Bytes) (hx : afiSafi (a.valueD cfg) = some x) : m.mpAttr code = .ok (some x) :=
   Raw.mpAttr_enc m (c.raws cfg) h.attrs h.rawsWf code (AttrC.rawOf cfg a) (by rw [h.first, hf]; rfl) x hx
 
-/-- the ADD-PATH flags the accessors use for the two MP sections -/
+/-- the ADD-PATH flags the accessors use for the two MP sections: the session's
+setting for the attribute's (AFI, SAFI) – also for an unsupported one (a session
+may have been configured with ADD-PATH for it; no accessor reads items by it) -/
 theorem mpReach_flag (h : Ctx cfg c m) :
     m.ppi.mpReach = match c.find 14 with
-      | some (.reach _ f _ _) => cfg.rx (famCode f)
+      | some (.reach _ f _ _ _) => cfg.rx (famCode f)
+      | some (.reachU _ k _ _ _) => cfg.rx k
       | _ => false := by
   rw [h.ppi]
   simp only [Ppi.ofCfg, h.mpKey 14 (.inl rfl)]
   cases hf : c.find 14 with
   | none => rfl
   | some a =>
-    obtain ⟨fl, f, nh, nlri, rfl⟩ := h.find_reach hf
-    obtain ⟨b, _, hv, _⟩ := h.reach_value (h.kind _ (find_mem hf).1)
-    simp [hv, afiSafi_reach]
+    rcases h.find_reach hf with ⟨fl, f, nh, rsv, nlri, rfl⟩ | ⟨fl, k, nh, rsv, body, rfl⟩
+    · obtain ⟨b, _, hv, _⟩ := h.reach_value (h.kind _ (find_mem hf).1)
+      simp [hv, afiSafi_reachR]
+    · have hk := h.kind _ (find_mem hf).1
+      simp [reachU_value, afiSafi_mpReach k hk.2.1 hk.2.2.1]
 
 theorem mpUnreach_flag (h : Ctx cfg c m) :
     m.ppi.mpUnreach = match c.find 15 with
       | some (.unreach _ f _) => cfg.rx (famCode f)
+      | some (.unreachU _ k _) => cfg.rx k
       | _ => false := by
   rw [h.ppi]
   simp only [Ppi.ofCfg, h.mpKey 15 (.inr rfl)]
   cases hf : c.find 15 with
   | none => rfl
   | some a =>
-    obtain ⟨fl, f, nlri, rfl⟩ := h.find_unreach hf
-    obtain ⟨b, _, hv, _⟩ := h.unreach_value (h.kind _ (find_mem hf).1)
-    simp [hv, afiSafi_unreach]
+    rcases h.find_unreach hf with ⟨fl, f, nlri, rfl⟩ | ⟨fl, k, body, rfl⟩
+    · obtain ⟨b, _, hv, _⟩ := h.unreach_value (h.kind _ (find_mem hf).1)
+      simp [hv, afiSafi_unreach]
+    · have hk := h.kind _ (find_mem hf).1
+      simp [unreachU_value, afiSafi_mpUnreach k hk.2.1 hk.2.2]
 
 /-! ### `mp_withdrawals()` / `mp_announcements()` -/
 
@@ -175,20 +206,36 @@ theorem itemsOfOpt_eq (x : Option (NlriTy × Bytes)) :
     itemsOfOpt x = ((x.map fun p => (p.1, enumItems p.1 p.2)).map (·.2)).getD ([], true) := by
   cases x <;> rfl
 
+/-- what `mp_attr(14)` finds for an MP_REACH_NLRI of an unsupported (AFI, SAFI) -/
+theorem mpAttr_reachU (h : Ctx cfg c m) {fl : UInt8} {k : Nat × Nat} {nh : Bytes} {rsv : UInt8} {body : Bytes}
+    (hf : c.find 14 = some (.reachU fl k nh rsv body)) :
+    m.mpAttr 14 = .ok (some (k, UInt8.ofNat nh.length :: (nh ++ (rsv :: body)))) := by
+  have hk := h.kind _ (find_mem hf).1
+  exact h.mpAttr_some 14 _ hf _ (by rw [reachU_value]; exact afiSafi_mpReach k hk.2.1 hk.2.2.1 nh rsv body)
+
+theorem mpAttr_unreachU (h : Ctx cfg c m) {fl : UInt8} {k : Nat × Nat} {body : Bytes}
+    (hf : c.find 15 = some (.unreachU fl k body)) : m.mpAttr 15 = .ok (some (k, body)) := by
+  have hk := h.kind _ (find_mem hf).1
+  exact h.mpAttr_some 15 _ hf _ (by rw [unreachU_value]; exact afiSafi_mpUnreach k hk.2.1 hk.2.2 body)
+
 theorem mpAnn_spec (h : Ctx cfg c m) : ∃ x, m.mpAnn = .ok x ∧
     (x.map fun p => (p.1, enumItems p.1 p.2)) = (c.reachOf cfg).map fun p => (p.1, okItems p.2) := by
   cases hf : c.find 14 with
   | none =>
     exact ⟨none, by simp [Msg.mpAnn, h.mpAttr_none 14 hf], by simp [TContent.reachOf, hf]⟩
   | some a =>
-    obtain ⟨fl, f, nh, nlri, rfl⟩ := h.find_reach hf
-    have hk := h.kind _ (find_mem hf).1
-    obtain ⟨b, _, hv, hi⟩ := h.reach_value hk
-    have hflag : m.ppi.mpReach = cfg.rx (famCode f) := by rw [h.mpReach_flag, hf]
-    have hattr := h.mpAttr_some 14 _ hf _ (by rw [hv]; exact afiSafi_reach f nh b)
-    refine ⟨some (.known f (cfg.rx (famCode f)), b), ?_, ?_⟩
-    · simp only [Msg.mpAnn, hattr, skipNextHop_enc nh b hk.2.1, Raw.nlriTy_famCode, hflag]
-    · simp [TContent.reachOf, hf, enumItems, hi, reportNlris_eq, okItems]
+    rcases h.find_reach hf with ⟨fl, f, nh, rsv, nlri, rfl⟩ | ⟨fl, k, nh, rsv, body, rfl⟩
+    · have hk := h.kind _ (find_mem hf).1
+      obtain ⟨b, _, hv, hi⟩ := h.reach_value hk
+      have hflag : m.ppi.mpReach = cfg.rx (famCode f) := by rw [h.mpReach_flag, hf]
+      have hattr := h.mpAttr_some 14 _ hf _ (by rw [hv]; exact afiSafi_reachR f nh rsv b)
+      refine ⟨some (.known f (cfg.rx (famCode f)), b), ?_, ?_⟩
+      · simp only [Msg.mpAnn, hattr, skipNextHop_mp nh rsv b hk.2.1, Raw.nlriTy_famCode, hflag]
+      · simp [TContent.reachOf, hf, enumItems, hi, reportNlris_eq, okItems]
+    · have hk := h.kind _ (find_mem hf).1
+      refine ⟨some (.unsupported k.1 k.2, body), ?_, ?_⟩
+      · simp only [Msg.mpAnn, h.mpAttr_reachU hf, skipNextHop_mp nh rsv body hk.2.2.2, nlriTy_unsupported hk.1]
+      · simp [TContent.reachOf, hf, enumItems, okItems]
 
 theorem mpWd_spec (h : Ctx cfg c m) : ∃ x, m.mpWd = .ok x ∧
     (x.map fun p => (p.1, enumItems p.1 p.2)) = (c.unreachOf cfg).map fun p => (p.1, okItems p.2) := by
@@ -196,14 +243,39 @@ theorem mpWd_spec (h : Ctx cfg c m) : ∃ x, m.mpWd = .ok x ∧
   | none =>
     exact ⟨none, by simp [Msg.mpWd, h.mpAttr_none 15 hf], by simp [TContent.unreachOf, hf]⟩
   | some a =>
-    obtain ⟨fl, f, nlri, rfl⟩ := h.find_unreach hf
-    have hk := h.kind _ (find_mem hf).1
-    obtain ⟨b, _, hv, hi⟩ := h.unreach_value hk
-    have hflag : m.ppi.mpUnreach = cfg.rx (famCode f) := by rw [h.mpUnreach_flag, hf]
-    have hattr := h.mpAttr_some 15 _ hf _ (by rw [hv]; exact afiSafi_unreach f b)
-    refine ⟨some (.known f (cfg.rx (famCode f)), b), ?_, ?_⟩
-    · simp only [Msg.mpWd, hattr, Raw.nlriTy_famCode, hflag]
-    · simp [TContent.unreachOf, hf, enumItems, hi, reportNlris_eq, okItems]
+    rcases h.find_unreach hf with ⟨fl, f, nlri, rfl⟩ | ⟨fl, k, body, rfl⟩
+    · have hk := h.kind _ (find_mem hf).1
+      obtain ⟨b, _, hv, hi⟩ := h.unreach_value hk
+      have hflag : m.ppi.mpUnreach = cfg.rx (famCode f) := by rw [h.mpUnreach_flag, hf]
+      have hattr := h.mpAttr_some 15 _ hf _ (by rw [hv]; exact afiSafi_unreach f b)
+      refine ⟨some (.known f (cfg.rx (famCode f)), b), ?_, ?_⟩
+      · simp only [Msg.mpWd, hattr, Raw.nlriTy_famCode, hflag]
+      · simp [TContent.unreachOf, hf, enumItems, hi, reportNlris_eq, okItems]
+    · have hk := h.kind _ (find_mem hf).1
+      refine ⟨some (.unsupported k.1 k.2, body), ?_, ?_⟩
+      · simp only [Msg.mpWd, h.mpAttr_unreachU hf, nlriTy_unsupported hk.1]
+      · simp [TContent.unreachOf, hf, enumItems, okItems]
+
+/-- the octets `mp_withdrawals()` runs over are empty exactly when the content's
+first MP_UNREACH_NLRI holds nothing after AFI/SAFI – for every family -/
+theorem mpWd_empty (h : Ctx cfg c m) (ty : NlriTy) (b : Bytes) (hm : m.mpWd = .ok (some (ty, b))) :
+    b.isEmpty = c.unreachEmpty := by
+  cases hf : c.find 15 with
+  | none => simp [Msg.mpWd, h.mpAttr_none 15 hf] at hm
+  | some a =>
+    rcases h.find_unreach hf with ⟨fl, f, nlri, rfl⟩ | ⟨fl, k, body, rfl⟩
+    · have hk := h.kind _ (find_mem hf).1
+      obtain ⟨b', hb', hv, _⟩ := h.unreach_value hk
+      have hattr := h.mpAttr_some 15 _ hf _ (by rw [hv]; exact afiSafi_unreach f b')
+      simp only [Msg.mpWd, hattr, Outcome.ok.injEq, Option.some.injEq, Prod.mk.injEq] at hm
+      obtain ⟨_, rfl⟩ := hm
+      have := encNlris_nil_iff f _ nlri hk b' hb'
+      simp only [TContent.unreachEmpty, hf]
+      rw [Bool.eq_iff_iff, List.isEmpty_iff, List.isEmpty_iff]
+      exact this
+    · simp only [Msg.mpWd, h.mpAttr_unreachU hf, Outcome.ok.injEq, Option.some.injEq, Prod.mk.injEq] at hm
+      obtain ⟨_, rfl⟩ := hm
+      simp [TContent.unreachEmpty, hf]
 
 theorem mpAnn (h : Ctx cfg c m) : withItems m.mpAnn = (expected cfg c).mpAnn := by
   obtain ⟨x, hx, hi⟩ := h.mpAnn_spec
@@ -273,16 +345,19 @@ theorem typedAnn (h : Ctx cfg c m) (g : Fam) :
     cases hf : c.find 14 with
     | none => simp [h.mpAttr_none 14 hf, TContent.reachOf, hf]
     | some a =>
-      obtain ⟨fl, f, nh, nlri, rfl⟩ := h.find_reach hf
-      have hk := h.kind _ (find_mem hf).1
-      obtain ⟨b, _, hv, hi⟩ := h.reach_value hk
-      have hflag : m.ppi.mpReach = cfg.rx (famCode f) := by rw [h.mpReach_flag, hf]
-      have hattr := h.mpAttr_some 14 _ hf _ (by rw [hv]; exact afiSafi_reach f nh b)
-      simp only [hattr, famOf_famCode, Option.some.injEq, TContent.reachOf, hf]
-      by_cases hfg : f = g
-      · subst hfg
-        simp only [↓reduceIte, skipNextHop_enc nh b hk.2.1, hflag, hi, reportNlris_eq, okItems]
-      · simp only [hfg, ↓reduceIte]
+      rcases h.find_reach hf with ⟨fl, f, nh, rsv, nlri, rfl⟩ | ⟨fl, k, nh, rsv, body, rfl⟩
+      · have hk := h.kind _ (find_mem hf).1
+        obtain ⟨b, _, hv, hi⟩ := h.reach_value hk
+        have hflag : m.ppi.mpReach = cfg.rx (famCode f) := by rw [h.mpReach_flag, hf]
+        have hattr := h.mpAttr_some 14 _ hf _ (by rw [hv]; exact afiSafi_reachR f nh rsv b)
+        simp only [hattr, famOf_famCode, Option.some.injEq, TContent.reachOf, hf]
+        by_cases hfg : f = g
+        · subst hfg
+          simp only [↓reduceIte, skipNextHop_mp nh rsv b hk.2.1, hflag, hi, reportNlris_eq, okItems]
+        · simp only [hfg, ↓reduceIte]
+      · -- an unsupported (AFI, SAFI) is no family's: `typed_announcements::<T>` is `Ok(None)` for every `T`
+        have hk := h.kind _ (find_mem hf).1
+        simp [h.mpAttr_reachU hf, hk.1, TContent.reachOf, hf]
 
 theorem typedWd (h : Ctx cfg c m) (g : Fam) :
     m.typedWd g (m.typeAp false g) = (expected cfg c).typedWd g := by
@@ -301,34 +376,39 @@ theorem typedWd (h : Ctx cfg c m) (g : Fam) :
     cases hf : c.find 15 with
     | none => simp [h.mpAttr_none 15 hf, TContent.unreachOf, hf]
     | some a =>
-      obtain ⟨fl, f, nlri, rfl⟩ := h.find_unreach hf
-      have hk := h.kind _ (find_mem hf).1
-      obtain ⟨b, _, hv, hi⟩ := h.unreach_value hk
-      have hflag : m.ppi.mpUnreach = cfg.rx (famCode f) := by rw [h.mpUnreach_flag, hf]
-      have hattr := h.mpAttr_some 15 _ hf _ (by rw [hv]; exact afiSafi_unreach f b)
-      simp only [hattr, famOf_famCode, Option.some.injEq, TContent.unreachOf, hf]
-      by_cases hfg : f = g
-      · subst hfg
-        simp only [↓reduceIte, hflag, hi, reportNlris_eq, okItems]
-      · simp only [hfg, ↓reduceIte]
+      rcases h.find_unreach hf with ⟨fl, f, nlri, rfl⟩ | ⟨fl, k, body, rfl⟩
+      · have hk := h.kind _ (find_mem hf).1
+        obtain ⟨b, _, hv, hi⟩ := h.unreach_value hk
+        have hflag : m.ppi.mpUnreach = cfg.rx (famCode f) := by rw [h.mpUnreach_flag, hf]
+        have hattr := h.mpAttr_some 15 _ hf _ (by rw [hv]; exact afiSafi_unreach f b)
+        simp only [hattr, famOf_famCode, Option.some.injEq, TContent.unreachOf, hf]
+        by_cases hfg : f = g
+        · subst hfg
+          simp only [↓reduceIte, hflag, hi, reportNlris_eq, okItems]
+        · simp only [hfg, ↓reduceIte]
+      · have hk := h.kind _ (find_mem hf).1
+        simp [h.mpAttr_unreachU hf, hk.1, TContent.unreachOf, hf]
 
 /-! ### next hops -/
 
 theorem nextHopTuple (h : Ctx cfg c m) :
     m.mpNextHopTuple = match c.reachNh with
-      | some (f, .ok nh) => .ok (some (famCode f, nh))
+      | some (k, .ok nh) => .ok (some (k, nh))
       | some (_, _) => .err
       | none => .ok none := by
   cases hf : c.find 14 with
   | none => simp [Msg.mpNextHopTuple, h.mpAttr_none 14 hf, TContent.reachNh, hf]
   | some a =>
-    obtain ⟨fl, f, nh, nlri, rfl⟩ := h.find_reach hf
-    have hk := h.kind _ (find_mem hf).1
-    obtain ⟨b, _, hv, _⟩ := h.reach_value hk
-    have hattr := h.mpAttr_some 14 _ hf _ (by rw [hv]; exact afiSafi_reach f nh b)
-    obtain ⟨x, hx⟩ := Option.isSome_iff_exists.mp hk.2.2
-    have hp := Raw.next_hop_reported f nh (0 :: b) x hk.2.1 hx
-    simp [Msg.mpNextHopTuple, hattr, famOf_famCode, hp, TContent.reachNh, hf, nhOf, hx]
+    rcases h.find_reach hf with ⟨fl, f, nh, rsv, nlri, rfl⟩ | ⟨fl, k, nh, rsv, body, rfl⟩
+    · have hk := h.kind _ (find_mem hf).1
+      obtain ⟨b, _, hv, _⟩ := h.reach_value hk
+      have hattr := h.mpAttr_some 14 _ hf _ (by rw [hv]; exact afiSafi_reachR f nh rsv b)
+      obtain ⟨x, hx⟩ := Option.isSome_iff_exists.mp hk.2.2
+      have hp := Raw.next_hop_reported f nh (rsv :: b) x hk.2.1 hx
+      simp [Msg.mpNextHopTuple, hattr, famOf_famCode, hp, TContent.reachNh, hf, nhOf, hx]
+    · -- `NextHop::parse` has no arm for `AfiSafiType::Unsupported`
+      have hk := h.kind _ (find_mem hf).1
+      simp [Msg.mpNextHopTuple, h.mpAttr_reachU hf, hk.1, nhParse, TContent.reachNh, hf]
 
 theorem mpNextHop (h : Ctx cfg c m) : m.mpNextHop = (expected cfg c).mpNextHop := by
   simp only [expected, Msg.mpNextHop, h.nextHopTuple]
@@ -357,14 +437,14 @@ theorem findNextHop (h : Ctx cfg c m) : m.findNextHop = (expected cfg c).findNex
     | ok nh =>
       by_cases hk : k = (1, 1)
       · simp only [hk, ↓reduceIte]
-        by_cases hf : famCode f = (1, 1)
+        by_cases hf : f = (1, 1)
         · simp only [hf, ↓reduceIte]
         · simp only [hf, ↓reduceIte]
           cases c.typedOf 3 with
           | none => rfl
           | some t => cases t <;> rfl
       · simp only [hk, ↓reduceIte, ne_eq]
-        by_cases hf : famCode f = k
+        by_cases hf : f = k
         · simp [hf]
         · simp [hf]
     | err =>
@@ -425,29 +505,16 @@ theorem isEor (h : Ctx cfg c m) : m.isEor = (expected cfg c).isEor := by
       | some p =>
         obtain ⟨ty, b⟩ := p
         simp only [Option.map_some, Option.some.injEq, Prod.mk.injEq] at hj
-        -- TContent only holds MP_UNREACH_NLRI of the 13 families: no octets iff no NLRI
-        obtain ⟨f, ap, hk⟩ : ∃ f ap, ty' = NlriTy.known f ap := by
-          simp only [TContent.unreachOf] at ho
-          split at ho
-          · simp only [Option.some.injEq, Prod.mk.injEq] at ho; exact ⟨_, _, ho.1.symm⟩
-          · cases ho
-        obtain ⟨hty, hi⟩ := hj
-        have hb : b.isEmpty = l.isEmpty := by
-          have h1 := enumItems_known_nil_iff f ap b
-          rw [← hk, ← hty, hi] at h1
-          simp only [okItems, List.map_eq_nil_iff] at h1
-          rw [Bool.eq_iff_iff, List.isEmpty_iff, List.isEmpty_iff]
-          exact h1.symm
+        obtain ⟨hty, _⟩ := hj
+        -- "no withdrawn routes" is read off the octets, for the 13 families and for any other
+        have hb := h.mpWd_empty ty b hy
         subst hty
         simp only [hb, h.hasMpNlri]
         have e1 : m.wd.isEmpty = true ↔ c.wd = [] := by rw [List.isEmpty_iff]; exact h.wd_nil
         have e2 : m.ann.isEmpty = true ↔ c.ann = [] := by rw [List.isEmpty_iff]; exact h.ann_nil
-        cases l with
-        | nil =>
-          by_cases hw : c.wd = [] <;> by_cases ha : c.ann = [] <;>
-            cases h14 : c.find 14 <;> simp [hw, ha, e1.mpr, e2.mpr, h14] <;>
-            simp_all
-        | cons z t => simp
+        cases hu : c.unreachEmpty <;> by_cases hw : c.wd = [] <;> by_cases ha : c.ann = [] <;>
+          cases h14 : c.find 14 <;> simp [hw, ha, e1.mpr, e2.mpr, h14] <;>
+          simp_all
 
 end Ctx
 
